@@ -266,6 +266,12 @@ def run(ctx: Context, rep) -> None:
     # nothing read from the dataset's files / the environment is memoised
     from sa.rules import shared as _shm
     _shm.check_no_memo(ctx, rep, "C19.memo")
+    # every epoch walks the lists as they are on disk (same check as C02.walk)
+    from sa.rules import shared as _sh19w
+    _sh19w.share_rules(ctx, rep, "c02", {"C02.walk": "C19.walk"})
+    # two native streams never share a registry slot (same check as
+    # C15.static-map)
+    rustrules.check_static_map(ctx, rep, "C19.rust-map")
     _shm.check_log_args_pure(ctx, rep, "C19.log")
     _shm.check_assert_pure(ctx, rep, "C19.assert")
     # two streams of one dataset object do not share a pool: every pool /
